@@ -59,6 +59,8 @@ def record_values(draw):
         "rec": draw(st.one_of(st.none(), inner_values())),
         "recs": draw(st.lists(inner_values(), max_size=2)),
         "name": draw(st.sampled_from(["sel/rec", "other/type"])),
+        # an older / newer generation of the same record type: same name, different field set
+        "variant": draw(st.sampled_from([None, None, None, "fewer", "more"])),
     }
 
 
@@ -70,10 +72,20 @@ def build_record(vals):
     def mk(v):
         return inner(v["s"], v["n"], v["tag"], _generated=GEN)
 
-    desc = RecordDescriptor(vals.get("name", "sel/rec"), SEL_FIELDS)
-    kw = {k: v for k, v in vals.items() if k not in ("rec", "recs", "name")}
+    fields = list(SEL_FIELDS)
+    variant = vals.get("variant")
+    kw = {k: v for k, v in vals.items() if k not in ("rec", "recs", "name", "variant")}
     kw["rec"] = None if vals["rec"] is None else mk(vals["rec"])
     kw["recs"] = [mk(v) for v in vals["recs"]]
+    if variant == "fewer":
+        drop = ("s2", "m", "sl", "size")
+        fields = [f for f in fields if f[1] not in drop]
+        for k in drop:
+            kw.pop(k, None)
+    elif variant == "more":
+        fields = [("string", "s0"), ("varint", "n0")] + fields + [("uri", "u2")]
+        kw.update({"s0": vals["s2"], "n0": vals["m"], "u2": vals["u"]})
+    desc = RecordDescriptor(vals.get("name", "sel/rec"), fields)
     return desc(_generated=GEN, **kw)
 
 
@@ -221,15 +233,16 @@ class G:
     def newvar(self, env=None):
         # sibling generator expressions often reuse a loop variable name (x, y); never shadow an enclosing one
         bound = {v for vs in (env or {}).values() for v in vs}
-        free = [v for v in ("x", "y", "z") if v not in bound]
-        if free and self.pick([0, 1, 1]):
-            return self.pick(free)
+        if not bound and self.pick([0, 1, 1]):
+            # top-level (sibling) generator expressions reuse x / y / z; nested ones always get a fresh name, because
+            # re-binding a name that an enclosing or later clause uses is a documented refusal of the interpreted engine
+            return self.pick(["x", "y", "z"])
         self.nvars += 1
         return "v%d" % self.nvars
 
     # ---- bool
     def bool_(self, d, env):
-        leaf = ["cmpnum", "cmpstr", "instr", "inlist", "const", "field", "ip", "opt"]
+        leaf = ["cmpnum", "cmpstr", "instr", "inlist", "const", "field", "ip", "opt", "seqcmp"]
         if d < self.max_depth:
             opts = leaf + ["and", "or", "not", "chain", "helper", "helper", "gen", "gen", "type", "type", "notin"]
         else:
@@ -272,6 +285,15 @@ class G:
             if self.pick([0, 1]):
                 return "(%s in %s)" % (self.str_(d + 1, env), self.strlist(d + 1, env))
             return "(%s in %s)" % (self.int_(d + 1, env), self.intlist(d + 1, env))
+        if k == "seqcmp":
+            # a tuple is not a list: (1, 2) == [1, 2] is False, (1, 2) in [[1, 2]] is False
+            self.use("seq:cmp")
+            mk = self.intlist if self.pick([0, 1]) else self.strlist
+            a, b = mk(d + 1, env), mk(d + 1, env)
+            form = self.pick(["==", "!=", "in-list-of"])
+            if form == "in-list-of":
+                return "(%s in [%s, %s])" % (a, b, mk(d + 1, env))
+            return "(%s %s %s)" % (a, form, b)
         if k == "opt":
             self.use("none-valued-field")
             return self.pick(["(r.opt == None)", "(r.opt != %s)" % self.strlit(), "(r.opt in [None, %s])" % self.strlit(),
@@ -353,7 +375,8 @@ class G:
                 clauses += " if %s" % self.bool_(d + 2, env2)
             if self.pick([0, 0, 0, 1]):
                 self.use("gen:two-for")
-                v2 = self.newvar(env2)
+                self.nvars += 1
+                v2 = "v%d" % self.nvars
                 sort2 = self.pick(["int", "str"])
                 it2 = self.intlist(d + 2, env2) if sort2 == "int" else "r.sl"
                 env2 = dict(env2)
@@ -618,6 +641,15 @@ def reference_namespace(rec):
                          "False": False, "None": None},
     }
     return ns
+
+
+DROPPED_IN_FEWER = re.compile(r"\br\.(s2|m|sl|size)\b")
+
+
+def touches_dropped_field(src, vals):
+    """With the 'fewer' variant some fields do not exist: expressions that mention them have sub-expressions
+    that are undefined in Python (AttributeError) even when short-circuiting hides it - that is C08's subject."""
+    return vals.get("variant") == "fewer" and DROPPED_IN_FEWER.search(src) is not None
 
 
 def reference_eval(src, rec):
